@@ -1,12 +1,15 @@
 #!/usr/bin/env python3
 """Run every registered check against every seeded mutant (in scratch worktrees, never in /repo) and record which checks fire.
-usage: seed_matrix.py [--redo] [--jobs N] [seed ...]   -> writes /verif/seeded/MATRIX.json"""
+usage: seed_matrix.py [--redo] [--own] [--jobs N] [seed ...]   -> writes /verif/seeded/MATRIX.json"""
 import json, os, subprocess, sys, time
 from concurrent.futures import ThreadPoolExecutor
 HERE = os.path.dirname(os.path.abspath(__file__))
 VERIF = os.path.dirname(HERE)
 sys.path.insert(0, HERE)
 import registry
+
+
+OWN_ONLY = "--own" in sys.argv          # only the check of the property the seed was aimed at
 
 
 def sh(cmd, **kw):
@@ -23,7 +26,7 @@ def run_seed(sd, slot):
         return sd, {"applies": False, "note": r.stdout.strip()[:200]}
     fired = {}
     t0 = time.time()
-    for pid in sorted(registry.CHECKS):
+    for pid in (sorted(registry.CHECKS) if not OWN_ONLY else [sd[:3]]):
         r = subprocess.run([os.path.join(VERIF, "check"), pid], env=env, cwd=VERIF, stdout=subprocess.PIPE, stderr=subprocess.STDOUT, text=True)
         rules = sorted({l.split("rule=")[1].split(" ")[0] for l in r.stdout.splitlines() if l.strip().startswith("rule=")})
         if rules:
